@@ -953,7 +953,18 @@ impl<'a> Exec<'a> {
                         let cut = c.faults.iter().any(|f| f.kind == "eof") || !c.faults.is_empty() || how == "message-budget";
                         let cap_small = m.headers.len() > t.cap || cap_may_bind;
                         if !(cut || (how == "error-TooManyHeaders" && cap_small)) {
-                            self.push(3, "sender-truth", format!("conn{} message {}: connection ended with {} although the sender's stream is intact", ci, mi, how));
+                            // an error verdict on an intact strict message is a grammar violation; a
+                            // stream that merely stalls (Partial for ever) is a framing one
+                            let prop = if how.starts_with("error-") {
+                                match t.kind {
+                                    Kind::Req => 6,
+                                    Kind::Resp => 7,
+                                    _ => 8,
+                                }
+                            } else {
+                                3
+                            };
+                            self.push(prop, "sender-truth", format!("conn{} message {}: connection ended with {} although the sender's stream is intact", ci, mi, how));
                         }
                         return;
                     }
@@ -972,7 +983,9 @@ impl<'a> Exec<'a> {
                     Some(HEv::Body(b)) if b == k => hi += 1,
                     Some(HEv::End { .. }) | None => return,
                     other => {
-                        self.push(3, "sender-truth", format!("conn{} message {}: body of {} bytes, receiver saw {:?}", ci, mi, k, other));
+                        // the head end was just verified against the sender's; a body that is
+                        // framed differently means the framing headers were misreported (C08)
+                        self.push(8, "sender-truth", format!("conn{} message {}: body of {} bytes, receiver saw {:?}", ci, mi, k, other));
                         return;
                     }
                 },
@@ -1178,8 +1191,16 @@ impl<'a> Exec<'a> {
         if let (Some(m), true) = (c.truth.first(), c.faults.is_empty()) {
             if m.strict && m.headers.len() <= t.cap && m.start == 0 {
                 self.stats.evaluations[3] += 1;
+                let grammar_prop = match kind {
+                    Kind::Req => 6,
+                    Kind::Resp => 7,
+                    Kind::Chunk => 9,
+                    Kind::Hdrs => 8,
+                };
                 match &decided {
                     Some((dk, d)) if d.st == St::Complete(m.head_len) && *dk == m.head_len => {}
+                    // rejected although valid: the accepted language is wrong, not the framing
+                    Some((dk, d)) if matches!(d.st, St::Err(_)) => self.push(grammar_prop, "sender-truth", format!("intact strict head of {} bytes rejected at cut {} with {:?} | input {}", m.head_len, dk, d.st, brief(b))),
                     other => self.push(3, "sender-truth", format!("intact strict head of {} bytes: first decided result {:?} | input {}", m.head_len, other.as_ref().map(|(k, d)| (*k, d.st)), brief(b))),
                 }
             }
